@@ -522,6 +522,17 @@ pub fn main(args: &[String]) -> i32 {
                 let (t, s) = gen_chain(&mut rng, n_ops, pat);
                 (t, s, format!("chain{n_ops}-{pat}"))
             }
+            "bigsoup" => {
+                let l = rng.random_range(200..=1000);
+                let (t, s) = gen_soup(&mut rng, l);
+                (t, s, "bigsoup".to_string())
+            }
+            "bigwf" => {
+                // up to ~1000 tokens, well-formed, with deep nesting mixed in
+                let nops = rng.random_range(150..=330);
+                let (t, s) = gen_case(&mut rng, nops, 20, 0, 0.2, 0.25);
+                (t, s, format!("bigwf{nops}"))
+            }
             "soup" => {
                 let l = rng.random_range(1..=30);
                 let (t, s) = gen_soup(&mut rng, l);
